@@ -33,4 +33,5 @@ void h_ber_fetch_tag(void) {
 	if(r == 0 && k >= 1 && k < size) __CPROVER_assert(buf[k] & 0x80, "C05: WMORE only when no terminating octet present");
 	free(buf);
 }
-VF_MAIN(h_ber_fetch_tag)
+
+VF_NATIVE_MAIN
